@@ -97,7 +97,7 @@ type Stats struct {
 }
 
 func NewWorker(p *Program, id int, solverKind string, lim Limits) (*Worker, error) {
-	s, err := sym.NewSolver(solverKind, 10000)
+	s, err := sym.NewSolver(solverKind, 8000)
 	if err != nil {
 		return nil, err
 	}
@@ -721,7 +721,7 @@ func (r *Run) Assert(g *Goroutine, c *sym.Term, kind, label string) {
 	case sym.Sat:
 		r.violate(g, kind, label, m)
 	case sym.Unknown:
-		r.abort("solver unknown on assertion %q", label)
+		r.abort("solver unknown on assertion %q (%s)", label, r.W.S.LastErr)
 	}
 	r.provedAsserts++
 	r.assumeTerm(c)
